@@ -16,7 +16,7 @@ import functools
 import schedula as sh
 from . import Token
 from ..errors import TokenError, FormulaError
-from .parenthesis import _update_n_args
+from .parenthesis import _update_n_args, _is_closed
 
 maxcol = 16384
 maxrow = 1048576
@@ -37,8 +37,8 @@ NA = XlError('#N/A')
 
 class Operand(Token):
     def ast(self, tokens, stack, builder):
-        if tokens and isinstance(tokens[-1], Operand):
-            raise TokenError()
+        if tokens and (isinstance(tokens[-1], Operand) or _is_closed(tokens[-1])):
+            raise TokenError()  # Two operands with no operator between them.
         super(Operand, self).ast(tokens, stack, builder)
         builder.append(self)
         _update_n_args(stack)
